@@ -21,7 +21,9 @@ LEVEL_NOTE = 'Trusted: Lean kernel; correspondence on generated renderings and m
 TECHNIQUE = 'Lean 4 proof (parse ∘ render = erase, by induction) + correspondence + independent renderer oracle'
 
 WS = ' \t\n\x0b\x0c\r\x85\xa0 ' + ''.join(chr(c) for c in range(0x2000, 0x200b)) + '    　'
-FRAG_ATOMS = ['a', 'b c', 'x=y', '"q r"', "'s'", '\\n', '\\\\', '\\x41', 'é', '#h', ';s', '[z]', '%h', ' ', '  ', '\t', '-', 'v1', '\xa0', 'a\\tb']
+FRAG_ATOMS = ['a', 'b c', 'x=y', '"q r"', "'s'", '\\n', '\\\\', '\\x41', 'é', '#h', ';s', '[z]', '%h', ' ', '  ', '\t', '-', 'v1', '\xa0', 'a\\tb',
+              # quotes that are never closed (the reader is lenient there, as systemd is), at the start of a word and inside one
+              " '90s", ' "open', 'it\'s', '5"', ' " rails']
 
 
 def trim_end(s):
@@ -171,7 +173,9 @@ def oracle(ctx):
     io = ctx.impl(ops)
     # which joined values does the implementation's own unquoter accept?  (otherwise load fails, by design)
     vals = sorted({v for m, _ in pairs for _, es in erase(m) for _, v in es})
-    uq = dict(zip(vals, ctx.impl(['unquote\t' + hx(v) for v in vals])))
+    # (asked of the model of the unquoter — proved against the statements of C04 — not of the code under test; of the code only when the
+    # model is not available)
+    uq = dict(zip(vals, (ctx.model if ctx.st.model_ok else ctx.impl)(['unquote\t' + hx(v) for v in vals])))
     for (m, text), op, a in zip(pairs, ops, io):
         res.oracle_evals += 1
         want_unit = erase(m)
